@@ -26,6 +26,7 @@ def run(ctx: Ctx) -> None:
     tableau.rule_rowops(ctx)
     tableau.rule_phase_combine(ctx)
     tableau.rule_measure_rowset(ctx)
+    tableau.rule_outcome_used(ctx)
     gatesum.rule_derived_gates(ctx)
     rule_wrappers(ctx)
     shapes.rule_removal_order(ctx)
